@@ -511,6 +511,21 @@ func (cr *coreRunner) runEdge(id int64, ln *coreLine, dir string) {
 			cr.addViol(violation{Prop: cr.prop, What: "header bytes", Line: line, Detail: err.Error(), B: m.B, Scale: m.Scale})
 			return
 		}
+		{
+			// the archive written directly (by name, or the finest under best routing): every physical slot holds the
+			// interval the specification puts there (an empty slot and a stored NaN are different records)
+			da := 0
+			if op.Sel != 0 {
+				da = op.Sel - 1
+			}
+			for j := range want[da] {
+				if j < len(rings[da]) && rings[da][j].T != want[da][j].T {
+					cr.addViol(violation{Prop: cr.prop, What: "physical slot of the directly written archive", Line: line, B: m.B, Scale: m.Scale,
+						Detail: fmt.Sprintf("archive %d slot %d holds interval %d, specification says %d; file %s", da, j, rings[da][j].T, want[da][j].T, fmtSlots(rings[da]))})
+					return
+				}
+			}
+		}
 		for a := range rings {
 			if !sameSlots(rings[a], o.Ring[a]) {
 				cr.addViol(violation{Prop: cr.prop, What: "bytes on disk differ from the handle's view", Line: line, B: m.B, Scale: m.Scale,
